@@ -3,6 +3,7 @@ import math, os, re
 from fractions import Fraction
 import vlib
 from vlib import Toks, lst, f2h
+from props import c12_translate
 
 ID = "C12"
 LEVEL = "proof"
@@ -28,6 +29,18 @@ OBLIGATIONS = [NS + t for t in [
     # splitters as objects: the parameters are the only state
     "Splitter.fresh_ok", "splitter_set_spec", "splitter_seed_restore", "hist_split_function", "hist_clone_copies",
     "hist_objects_oracle_free", "hist_equal_params_equal_splits", "hist_splits_keep_objects",
+    # translation round: the model IS the text regenerated from kfold.cpp / random.cpp (Gen/SplitKFold.lean, Gen/SplitRandom.lean)
+    "model_kfold_validPieces_is_generated", "model_kfold_trainPieces_is_generated", "model_kfold_sizes_is_generated",
+    "gen_kfold_pieces_tile", "model_foldSplit_is_generated", "model_kfold_is_generated",
+    "model_random_sizes_is_generated", "model_randomFold_is_generated", "model_random_split_is_generated",
+    "model_splitter_split_is_generated",
+    # … and from sampling.cpp / random.cpp / random.h (Gen/SplitSampling.lean)
+    "gen_generate_eq", "gen_pickAll_eq", "model_make_rng_is_generated", "model_udist_is_generated", "model_withoutG_is_generated",
+    "model_sampleWithout_is_generated", "model_withG_is_generated", "model_wwithG_is_generated", "gen_unseeded_wrappers",
+    # … and the dispatch of gboost/sampler.cpp (Gen/SplitGboost.lean)
+    "model_sampler_sample_is_generated", "model_sampler_count_is_generated", "model_sampler_make_is_generated",
+    # the property stated for the regenerated text
+    "kfold_split_generated", "random_split_generated", "without_replacement_generated",
 ]]
 TRUSTED = [
     "Lean 4.33.0 kernel; Mathlib modules imported by NanoVerif/Proofs/Split.lean, SplitDiscrete.lean, SplitSampler.lean and NanoVerif/Props/C12.lean",
@@ -46,6 +59,12 @@ TRUSTED = [
     "List.mergeSort). No longer an oracle: `discrete_distribution never returns a position of weight 0` is theorem ddDraw_positive / "
     "weighted_never_zero_model about the model of the libstdc++ code in exact arithmetic (binary64 rounding of the cumulative table is "
     "not covered by the theorem; the run-time monitor `zero-weight` of the property oracle stays on every case)",
+    "tools/props/c12_translate.py (C++ statements -> Lean; expression parser of c14_translate.py): kfold_splitter_t::split, "
+    "random_splitter_t::split, the three sampling overloads with a generator, make_rng, make_udist, gboost::sampler_t (constructor, sample) are re-translated on "
+    "every run into Gen/SplitKFold.lean, Gen/SplitRandom.lean, Gen/SplitSampling.lean, Gen/SplitGboost.lean; the hand-written model is proved equal to the generated text "
+    "(model_*_is_generated in Proofs/SplitGen.lean, SplitGenSampling.lean, SplitGenGboost.lean), so the translator is trusted instead of the reading "
+    "of these functions by hand; Eigen's segment()/slice() on index vectors, std::generate and the pair order of emplace_back are read "
+    "as the fixed primitives `segment`, `slice`, `generate`, `pickAll`, `assemble` printed in the generated files",
     "outside: the overloads without a generator argument and make_rng() without seed read std::random_device; their answers go to the "
     "property oracle only (family `unseeded`); splitter_t::all() / the factory is C19's",
 ]
@@ -243,6 +262,8 @@ def translate():
         lines += [f"def {k}Min : Nat := {lo}", f"def {k}Default : Nat := {dv}", f"def {k}Max : Nat := {hi}"]
     lines.append("\nend NanoVerif.Gen.Splitter\n")
     vlib.write_if_changed(GEN_PARAMS, "\n".join(lines))
+    # kfold.cpp / random.cpp / sampling.cpp statement by statement (Gen/SplitKFold.lean, Gen/SplitRandom.lean, Gen/SplitSampling.lean)
+    c12_translate.translate()
 
 
 def _balanced(s):
@@ -744,6 +765,11 @@ def _splits_check(o, samples, folds, tp, pairs):
         for f, (train, valid) in enumerate(pairs):
             if len(train) != want or len(valid) != n - want:
                 return f"train-size: {len(train)} training samples, round({tp}*{n}/100) = {want} (fold {f})"
+        # repeated random sub-sampling: the samples are re-shuffled for every fold (random.cpp, the shuffle is the first
+        # statement of the loop: Gen/SplitRandom.lean `loop`). Every fold being the SAME split is evidence of a single shuffle
+        # only when chance cannot explain it: C(n, train)^(folds - 1) > 1e12
+        if folds >= 2 and 0 < want < n and all(p == pairs[0] for p in pairs[1:]) and math.comb(n, want) ** (folds - 1) > 1e12:
+            return f"no-reshuffle: all {folds} folds of the random splitter are the same split (n = {n}, train = {want})"
     return None
 
 
@@ -1007,12 +1033,15 @@ def shrink_candidates(op):
 
 
 def static_checks():
-    """the model must use the translated idiv, and random.cpp must still compute the train size through idiv"""
+    """the model must use the translated idiv, and random.cpp must still compute the train size through idiv (as re-translated)"""
     bad = []
     model = open(os.path.join(vlib.LEAN, "NanoVerif", "Model", "Split.lean")).read()
     if "Gen.idiv" not in vlib.strip_lean_comments(model):
         bad.append("Model/Split.lean no longer uses Gen.idiv")
-    src = open(RANDOM_CPP).read()
-    if not re.search(r"train_size\s*=\s*idiv\(\s*train_perc\s*\*\s*samples\.size\(\)\s*,\s*100\s*\)", src):
-        bad.append("src/splitter/random.cpp: train_size is no longer idiv(train_perc * samples.size(), 100)")
+    # the text of random.cpp is no longer pinned here: `train_size = idiv(train_perc * samples.size(), 100)` is re-translated on
+    # every run (Gen/SplitRandom.lean `outer0`) and tied to `trainSize` by the obligation `model_random_sizes_is_generated`,
+    # which does not depend on the names of the locals
+    gen = open(os.path.join(vlib.LEAN, "NanoVerif", "Gen", "SplitRandom.lean")).read()
+    if "Gen.idiv" not in vlib.strip_lean_comments(gen):
+        bad.append("src/splitter/random.cpp: the training size is no longer computed through idiv (Gen/SplitRandom.lean)")
     return bad
